@@ -34,6 +34,7 @@ pub struct Counters {
     pub skipped: AtomicU64,
     pub handler_calls: AtomicU64,
     pub states: Mutex<HashSet<u64>>,
+    pub samples: Mutex<Vec<Value>>,
 }
 impl Counters {
     pub fn new() -> Self {
@@ -45,6 +46,7 @@ impl Counters {
             skipped: AtomicU64::new(0),
             handler_calls: AtomicU64::new(0),
             states: Mutex::new(HashSet::new()),
+            samples: Mutex::new(Vec::new()),
         }
     }
 }
@@ -242,8 +244,11 @@ pub fn for_each_db(
         wss.push(ch.to_ws());
     }
     let n_chains = wss.len() - n_layouts;
-    crate::report::par_batches(&wss, 32, |_i, ws| {
+    crate::report::par_batches(&wss, 32, |i, ws| {
         let r = ws.render();
+        if i % 1201 == 7 {
+            cnt.samples.lock().unwrap().push(json!({"workspace_files": ws.files.iter().map(|f| json!({"path": f.rel, "plugin": f.plugin, "text": r.texts[ws.file_index(&f.rel).unwrap()]})).collect::<Vec<_>>()}));
+        }
         let (defs, others) = {
             let mut d = Vec::new();
             let mut o = Vec::new();
